@@ -102,6 +102,7 @@ typedef struct vf_world {
     vf_host   host;
     uint8_t   fill;           /* byte pattern of freshly allocated memory */
     /* dynamic */
+    struct { uint32_t icon_epoch; } env;   /* platform state the environment may change (part of every snapshot and key) */
     uint64_t  now_ms;
     vf_ledger led;
     vf_faultplan fp;
@@ -224,6 +225,7 @@ typedef struct e1_cfg {
     uint64_t max_states;
     double deadline_s;
     int    record_outhash;                 /* keep per-transition output hashes */
+    const uint64_t *compare_outhash; uint64_t compare_n;   /* second run: outputs must equal the first run's */
 } e1_cfg;
 typedef struct e1_stats {
     uint64_t states, transitions; int max_depth; int fixpoint; const char *cap;
